@@ -178,13 +178,19 @@ def vec_from_elem(c):
 
 @model(r"^std::vec::Vec::<.*>::(new|with_capacity)$|^smallvec::SmallVec::<.*>::(new|with_capacity)$|^std::string::String::(new|with_capacity)$|^<std::vec::Vec<.*> as std::default::Default>::default$")
 def vec_new(c):
-    return [(c.st, Seq(Lin.const(0)))]
+    return [(c.st, Seq(Lin.const(0), None, EMPTY))]
 
 
-def _set_len(c, ref, newlen):
+def _set_len(c, ref, newlen, add_item=None, keep_items=False):
     if isinstance(ref, Ref):
         cur = c.it.load(c.st, ref.cell, ref.path)
-        c.it.store(c.st, ref.cell, ref.path, Seq(newlen, cur.elem if isinstance(cur, Seq) else None))
+        items = None
+        if isinstance(cur, Seq):
+            if add_item is not None:
+                items = weak_join(cur.items, add_item)
+            elif keep_items:
+                items = cur.items
+        c.it.store(c.st, ref.cell, ref.path, Seq(newlen, cur.elem if isinstance(cur, Seq) else None, items))
 
 
 @model(r"^std::vec::Vec::<.*>::push$|^smallvec::SmallVec::<.*>::push$|^std::string::String::push$")
@@ -198,7 +204,7 @@ def vec_push(c):
         c.st.sys.add_le(n.e, ln + 4)
         _set_len(c, c.args[0], n.e)
     else:
-        _set_len(c, c.args[0], ln + 1)
+        _set_len(c, c.args[0], ln + 1, add_item=c.args[1] if len(c.args) > 1 else None)
     return [(c.st, Struct())]
 
 
@@ -372,6 +378,22 @@ def std_iter_next(c):
         rt = c.ret_ty()
         # Some((i, elem))
         return [(c.st, none), (st2, Enum(OPTION, {1: Struct({0: Struct({0: i, 1: TOP})})}))]
+    if isinstance(v, Iter) and not v.enumerated and v.kind in ("iter", "vec") and isinstance(c.args[0], Ref) and not v.maps:
+        # exact-size iterator: Some consumes one item, None means exhausted
+        st2 = c.st.copy()
+        st2.sys.add_ge(v.len - 1)
+        c.st.sys.add_eq(v.len)
+        out = []
+        if not c.st.sys.bottom and c.it.feasible_wrt(c.st, v.len.t):
+            out.append((c.st, none))
+        if not st2.sys.bottom and c.it.feasible_wrt(st2, v.len.t):
+            c.it.store(st2, c.args[0].cell, c.args[0].path, Iter(v.len - 1, False, v.kind, None, v.items))
+            item = v.items if isinstance(v.items, V) and not isinstance(v.items, Empty) else None
+            if item is None:
+                r = c.top_ret(st2)
+                item = r.v[1].get(0) if isinstance(r, Enum) and 1 in r.v else TOP
+            out.append((st2, Enum(OPTION, {1: Struct({0: item})})))
+        return out
     st2 = c.st.copy()
     if isinstance(v, Iter) and v.chunk is not None:
         return [(c.st, none), (st2, Enum(OPTION, {1: Struct({0: Seq(v.chunk)})}))]
@@ -741,7 +763,7 @@ def int_ord(c):
     return [(c.st, TOP)]
 
 
-@model(r"^std::cmp::impls::<impl std::cmp::(PartialEq|PartialOrd|Ord|Eq)(<.*>)? for .*>::|^std::array::equality::<impl std::cmp::PartialEq<.*> for \[.*\]>::(eq|ne)$|^std::vec::partial_eq::<impl std::cmp::PartialEq<.*> for .*>::(eq|ne)$"
+@model(r"^std::cmp::impls::<impl std::cmp::(PartialEq|PartialOrd|Ord|Eq)(<.*>)? for .*>::|^std::array::equality::<impl std::cmp::PartialEq(<.*>)? for \[.*\]>::(eq|ne)$|^std::vec::partial_eq::<impl std::cmp::PartialEq(<.*>)? for .*>::(eq|ne)$"
        r"|^<std::boxed::Box<.*> as std::cmp::PartialEq>::(eq|ne)$|^core::slice::cmp::<impl std::cmp::PartialEq<.*> for \[.*\]>::(eq|ne)$|^<std::string::String as std::cmp::PartialEq(<.*>)?>::(eq|ne)$"
        r"|^core::str::traits::<impl std::cmp::PartialEq for str>::(eq|ne)$|^<.* as std::cmp::(PartialEq|PartialOrd|Ord)(<.*>)?>::(eq|ne|cmp|partial_cmp|lt|le|gt|ge|max|min)$|^std::cmp::(max|min)::<")
 def opaque_cmp(c):
@@ -830,7 +852,80 @@ def range_contains(c):
 
 # ------------------------------------------------------------------------------------------- iterator adaptors over workspace iterators
 
-@model(r"^<.* as std::iter::Iterator>::(find|any|all|position|map|filter|for_each|fold|collect|count|enumerate|take|skip|rev|zip|cloned|copied|sum|filter_map|find_map|last|nth|min|max|peekable|chain|flat_map|step_by)(::<.*>)?$|^<std::iter::(Map|Filter|Enumerate|Take|Skip|Rev|Zip|Cloned|Copied|FilterMap|Peekable|Chain)<.*> as std::iter::Iterator>::next$|^<std::vec::IntoIter<.*> as std::iter::Iterator>::next$|^<std::vec::Vec<.*> as std::iter::IntoIterator>::into_iter$|^<std::vec::Vec<.*> as std::iter::FromIterator<.*>>::from_iter")
+@model(r"^<std::vec::Vec<.*> as std::iter::IntoIterator>::into_iter$")
+def vec_into_iter(c):
+    v = c.deref(c.args[0])
+    if isinstance(v, Seq):
+        return [(c.st, Iter(v.len, False, "vec", None, v.items))]
+    return None
+
+
+@model(r"^<std::vec::IntoIter<.*> as std::iter::Iterator>::map::<")
+def vec_iter_map(c):
+    v = c.args[0]
+    if isinstance(v, Iter) and v.items is not None:
+        return [(c.st, Iter(v.len, v.enumerated, v.kind, v.chunk, v.items, v.maps + (c.args[1],)))]
+    c.escape(c.args[1])
+    return [(c.st, c.top_ret())]
+
+
+@model(r"^<std::iter::Map<std::vec::IntoIter<.*>, .*> as std::iter::Iterator>::collect::<std::vec::Vec<")
+def vec_map_collect(c):
+    v = c.args[0]
+    if isinstance(v, Iter) and v.items is not None:
+        if isinstance(v.items, Empty):
+            return [(c.st, Seq(v.len, None, EMPTY))]
+        # every element is covered by the summary: run the closures once on it, in context
+        states = [(c.st, v.items)]
+        for i, f in enumerate(v.maps):
+            nxt = []
+            for st_, item in states:
+                res = c.call_closure(st_, f, [item], "m%d" % i)
+                if res is None:
+                    c.escape(f)
+                    return [(c.st, c.top_ret())]
+                nxt.extend(res)
+            states = nxt
+        out = []
+        for st_, item in states:
+            out.append((st_, Seq(v.len, None, item)))
+        return out
+    for a in c.args:
+        c.escape(a)
+    return [(c.st, c.top_ret())]
+
+
+ATTRS_ITER = "stun_types::message::MessageAttributesIter"
+
+
+@model(r"^<stun_types::message::MessageAttributesIter<.*> as std::iter::Iterator>::(map|filter|enumerate)(::<.*>)?$|^<std::iter::(Map|Filter)<(std::iter::(Map|Filter)<)*stun_types::message::MessageAttributesIter<.*> as std::iter::Iterator>::(map|filter|collect)(::<.*>)?$")
+def attrs_iter_adaptor(c):
+    """adaptors over the workspace attribute iterator: the number of items is bounded by the bytes left / 4
+    (every Some advances the cursor by >= 4 below the length: rule C01 termination-iii)"""
+    for a in c.args[1:]:
+        c.escape(a)
+    v = c.args[0]
+    n = None
+    if isinstance(v, Struct) and isinstance(v.get(0), Seq) and isinstance(v.get(1), Num):
+        n = c.it.fresh_num(c.st, 0, None, "nattrs")
+        # 4*n <= len - cursor + 3
+        c.st.sys.add_ge(v.get(0).len - v.get(1).e + 3 - n.e.scale(4))
+        c.it.assumed["attrs-iter-bound"] = "items yielded by MessageAttributesIter <= (len - cursor + 3) / 4 (needs termination-iii)"
+        n = n.e
+    elif isinstance(v, Iter):
+        n = v.len
+    if n is None:
+        c.escape(v)
+        c.havoc_mut_args()
+        return [(c.st, c.top_ret())]
+    if c.name.split("::")[-1].startswith("collect") or re.search(r"::collect::<", c.name):
+        m = c.it.fresh_num(c.st, 0, None, "ncoll")
+        c.st.sys.add_le(m.e, n)
+        return [(c.st, Seq(m.e))]
+    return [(c.st, Iter(n, False, "attrs"))]
+
+
+@model(r"^<.* as std::iter::Iterator>::(find|any|all|position|map|filter|for_each|fold|collect|count|enumerate|take|skip|rev|zip|cloned|copied|sum|filter_map|find_map|last|nth|min|max|peekable|chain|flat_map|step_by)(::<.*>)?$|^<std::iter::(Map|Filter|Enumerate|Take|Skip|Rev|Zip|Cloned|Copied|FilterMap|Peekable|Chain)<.*> as std::iter::Iterator>::next$|^<std::vec::IntoIter<.*> as std::iter::Iterator>::next$|^<std::vec::Vec<.*> as std::iter::FromIterator<.*>>::from_iter")
 def iter_adaptor(c):
     # total provided the closures and the underlying workspace iterator are panic-free and terminating: those
     # are analysed as entries of their own (escape), termination of MessageAttributesIter is rule C01-T3
